@@ -116,13 +116,25 @@ func (s *JSONDB) newWriter(dagFile string, t time.Time, requestID string) (*writ
 }
 
 func (s *JSONDB) ReadStatusRecent(dagFile string, n int) []*model.StatusFile {
-	var ret []*model.StatusFile
+	ret, gone := s.readStatusRecent(dagFile, n)
+	if gone {
+		// The compaction at the end of a run replaces <run>.dat by
+		// <run>_c.dat: a file listed a moment ago may be gone. List again.
+		ret, _ = s.readStatusRecent(dagFile, n)
+	}
+	return ret
+}
+
+func (s *JSONDB) readStatusRecent(dagFile string, n int) (ret []*model.StatusFile, gone bool) {
 	files := s.latest(s.globPattern(dagFile), n)
 	for _, file := range files {
 		status, err := s.cache.LoadLatest(file, func() (*model.Status, error) {
 			return ParseFile(file)
 		})
 		if err != nil {
+			if errors.Is(err, os.ErrNotExist) {
+				gone = true
+			}
 			continue
 		}
 		ret = append(ret, &model.StatusFile{
@@ -130,7 +142,7 @@ func (s *JSONDB) ReadStatusRecent(dagFile string, n int) []*model.StatusFile {
 			Status: status,
 		})
 	}
-	return ret
+	return ret, gone
 }
 
 func (s *JSONDB) ReadStatusToday(dagFile string) (*model.Status, error) {
